@@ -14,7 +14,7 @@ use std::time::Instant;
 pub const MAX_LIMIT: usize = 30;
 pub const DEFAULT_LIMIT: usize = 10;
 
-pub const LIMITS: [Option<u32>; 13] = [
+pub const LIMITS: [Option<u32>; 20] = [
     None,
     Some(0),
     Some(1),
@@ -27,6 +27,14 @@ pub const LIMITS: [Option<u32>; 13] = [
     Some(31),
     Some(32),
     Some(100),
+    // around the u8 / u16 boundaries (a limit narrowed before it is capped)
+    Some(255),
+    Some(256),
+    Some(257),
+    Some(300),
+    Some(512),
+    Some(65535),
+    Some(65536),
     Some(u32::MAX),
 ];
 
